@@ -164,6 +164,29 @@ def run(prog, rep, tier):
     for k in table:
         if k not in seen:
             rep.note('stale growth table entry: %s' % k)
+    # "memory proportional to the number of non-contiguous runs": a run is recorded only together with a block actually written -- in
+    # append_file_content, once mark_continuous_block has been called, every successful return passes the write of the content block
+    af = [b for b in find_bodies(prog, 'mla', adt='ArchiveWriter', name='append_file_content') if b.kind != 'Closure']
+    if len(af) != 1:
+        rep.ob('R15.2', False, 'R15.2|anchor|ArchiveWriter::append_file_content', 'append_file_content not found')
+    else:
+        ab = af[0]
+        rep.fn(ab)
+        marks = [b for b in ab.calls() if cnorm(b.term).endswith('ArchiveWriter::mark_continuous_block')]
+        dumps = [b for b in ab.calls() if cnorm(b.term).endswith('ArchiveFileBlock::dump')]
+        okm = len(marks) == 1 and bool(dumps)
+        msg = 'expected one mark_continuous_block and a block write (found %d / %d)' % (len(marks), len(dumps))
+        if okm:
+            mk = marks[0]
+            env = {mk.term.dest[0]: 'Ok'} if mk.term.dest is not None and not mk.term.dest[1] else {}
+            r = reachable_vs(ab, mk.term.target, removed_blocks=[d.idx for d in dumps], env0=env) if mk.term.target is not None else set()
+            oks = [bb.idx for bb in ab.blocks if bb.idx in r and not bb.cleanup and any(
+                st.kind == 'assign' and st.place == (0, ()) and st.rv.r == 'aggregate' and st.rv.j.get('variant') == 'Ok' for st in bb.stmts)]
+            okm = not oks
+            msg = 'after a run is recorded, success implies that a content block was written' if okm else \
+                'append_file_content can record a run (mark_continuous_block) and return Ok without writing a block (%s): polling a file with empty appends grows the per-file ' \
+                'offset list without bound' % ab.loc(oks[0])
+        rep.ob('R15.2', okm, 'R15.2|%s|run-recorded-only-with-a-block' % (ab.nkey if len(af) == 1 else '?'), msg, ab.loc())
     # content is copied through io::copy on a bounded take, never materialised: ArchiveFileBlock::dump
     dump = prog.body('mla', 'ArchiveFileBlock::<T>::dump')
     if dump is not None:
